@@ -146,6 +146,38 @@ theorem reader_makeGenbankOriginParser :
     GbReader.fn_makeGenbankOriginParser_func0 = Spec.GbReader.fn_makeGenbankOriginParser_func0 ∧
     GbReader.fn_makeGenbankOriginParser_func1 = Spec.GbReader.fn_makeGenbankOriginParser_func1 := ⟨rfl, rfl, rfl⟩
 
+/-- `init` of insdc.go sorts the three name lists (the precondition of `searchString`) -/
+theorem reader_init :
+    GbReader.fn_init = Spec.GbReader.fn_init := rfl
+
+/-- `RegisterQuotedQualifier`: append, then sort again — every member stays (`Registry.addQuoted`) -/
+theorem reader_RegisterQuotedQualifier :
+    GbReader.fn_RegisterQuotedQualifier = Spec.GbReader.fn_RegisterQuotedQualifier := rfl
+
+/-- `RegisterLiteralQualifier`: append, then sort again (`Registry.addLiteral`) -/
+theorem reader_RegisterLiteralQualifier :
+    GbReader.fn_RegisterLiteralQualifier = Spec.GbReader.fn_RegisterLiteralQualifier := rfl
+
+/-- `RegisterToggleQualifier`: append, then sort again (`Registry.addToggle`) -/
+theorem reader_RegisterToggleQualifier :
+    GbReader.fn_RegisterToggleQualifier = Spec.GbReader.fn_RegisterToggleQualifier := rfl
+
+/-- `searchString`: the recursive binary search (as a function: `Gts.Bridge.searchString_mem`) -/
+theorem reader_searchString :
+    GbReader.fn_searchString = Spec.GbReader.fn_searchString := rfl
+
+/-- `IsQuotedQualifier` searches `QuotedQualifierNames` -/
+theorem reader_IsQuotedQualifier :
+    GbReader.fn_IsQuotedQualifier = Spec.GbReader.fn_IsQuotedQualifier := rfl
+
+/-- `IsLiteralQualifier` searches `LiteralQualifierNames` -/
+theorem reader_IsLiteralQualifier :
+    GbReader.fn_IsLiteralQualifier = Spec.GbReader.fn_IsLiteralQualifier := rfl
+
+/-- `IsToggleQualifier` searches `ToggleQualifierNames` -/
+theorem reader_IsToggleQualifier :
+    GbReader.fn_IsToggleQualifier = Spec.GbReader.fn_IsToggleQualifier := rfl
+
 /-- `GetQualifierType`: every statement in normal form is the expected one -/
 theorem reader_GetQualifierType :
     GbReader.fn_GetQualifierType = Spec.GbReader.fn_GetQualifierType := rfl
